@@ -44,7 +44,7 @@ func vpIsClean(a string) bool {
 }
 
 //vp:prop C26
-//vp:bounds peer list of 0..2 existing peers (trusted or not, last seen just now / two days ago / never), configured maximum 0 (unlimited)..3; one operation: AddPeers with 0..3 addresses drawn from 5 candidates (clean, whitespace-bearing, malformed), AddPeer with one candidate, or expiry of old peers; fixed clock, expiry after one hour or one week; any shuffle
+//vp:bounds peer list of 0..2 existing peers (trusted or not, last seen just now / two days ago / never, any retry count 0..1000), configured maximum 0 (unlimited)..3; one operation: AddPeers with 0..3 addresses drawn from 5 candidates (clean, whitespace-bearing, malformed), AddPeer with one candidate, or expiry of old peers; fixed clock, expiry after one hour or one week; any shuffle
 //vp:assume validateAddress is summarised by its contract (strip whitespace, accept the well-formed public addresses); rand.Shuffle is an arbitrary permutation; the clock is a fixed instant
 //vp:rule github.com/skycoin/skycoin/src/daemon/pex.validateAddress model:vpModelValidate
 //vp:rule math/rand.Shuffle model:vpModelShuffle
@@ -57,11 +57,15 @@ func vpH_C26_PeerListStep() {
 	nPre := vpLen("nExisting", 0, 2)
 	pre := [2]string{"11.22.33.44:6000", "11.22.33.47:6003"}
 	trusted := [2]bool{}
+	age := [2]int64{}
 	for i := 0; i < nPre; i++ {
 		p := NewPeer(pre[i])
 		p.LastSeen = [3]int64{1700000000 - 10, 1700000000 - 2*86400, 0}[vpLen("lastSeen", 0, 2)] // just now, two days ago, never
 		p.Trusted = vpBool("trusted")
 		trusted[i] = p.Trusted
+		p.RetryTimes = vpInt("retryTimes") // any retry count: staleness is about age only
+		vpAssume(p.RetryTimes >= 0 && p.RetryTimes <= 1000)
+		age[i] = 1700000000 - p.LastSeen
 		px.peerlist.peers[pre[i]] = p
 	}
 	before := px.peerlist.len()
@@ -92,10 +96,13 @@ func vpH_C26_PeerListStep() {
 			}
 		}
 	case 2:
-		px.peerlist.clearOld([2]time.Duration{time.Hour, 7 * 24 * time.Hour}[vpLen("maxAge", 0, 1)])
+		maxAge := [2]time.Duration{time.Hour, 7 * 24 * time.Hour}[vpLen("maxAge", 0, 1)]
+		px.peerlist.clearOld(maxAge)
 		for i := 0; i < nPre; i++ {
 			if trusted[i] {
 				vpAssert(px.peerlist.hasPeer(pre[i]), "trusted_peer_not_dropped_as_stale")
+			} else {
+				vpAssert(px.peerlist.hasPeer(pre[i]) == (time.Duration(age[i])*time.Second <= maxAge), "untrusted_peer_dropped_exactly_when_older_than_the_limit")
 			}
 		}
 	}
